@@ -69,7 +69,10 @@ type variant struct {
 }
 
 func layoutVariants() []variant {
-	shuffle := func(bt *gen.Built, rng *base.Rand) gen.RenderOpts { gen.ShuffleDecls(bt.P, rng); return gen.RenderOpts{} }
+	shuffle := func(bt *gen.Built, rng *base.Rand) gen.RenderOpts {
+		gen.ShuffleDecls(bt.P, rng)
+		return gen.RenderOpts{}
+	}
 	move := func(bt *gen.Built, rng *base.Rand) gen.RenderOpts { gen.MoveDecls(bt.P, rng); return gen.RenderOpts{} }
 	noise := func(bt *gen.Built, rng *base.Rand) gen.RenderOpts { return gen.RenderOpts{Noise: rng} }
 	ugly := func(bt *gen.Built, rng *base.Rand) gen.RenderOpts { return gen.RenderOpts{Ugly: rng} }
@@ -337,7 +340,7 @@ func checkC14(replay string) {
 	nProg := r.Pick(12, 300)
 	cfgs := []gen.Cfg{}
 	for _, st := range []bool{false, true} {
-		for _, ep := range [][]string{{}, {"testdata"}, {"gen_legacy"}, {"zz_skip", "gen_legacy", "testdata"}, {"u1/gen_legacy", "zz_skip_pkg/", "/d0/gen_"}} {
+		for _, ep := range [][]string{{}, {"testdata"}, {"gen_legacy", "gen_old"}, {"zz_skip", "gen_legacy", "testdata", "Gen_Old"}, {"u1/gen_legacy", "zz_skip_pkg/", "/d0/gen_"}} {
 			cfgs = append(cfgs, gen.Cfg{ScanTests: st, ExcludePaths: ep})
 		}
 	}
